@@ -1,6 +1,7 @@
 import RulioProofs.Breaker
 import RulioProofs.Throttle
 import RulioProofs.BreakerFixed
+import RulioProofs.CapLocked
 
 /-! # C20 — configured limits are enforced and recover (property theorems only)
 
@@ -242,10 +243,24 @@ theorem capacity_ungated_witness :
     (({ maxFacts := 1, store := [] } : Cap).exec [.addRule "r" "rule", .setProp "!r.disabled" "true"]).count = 2 := by
   decide
 
-/-- **Negative witness, concurrency.**  `AtCapacity` and `state.Add` are separate steps with no common lock: two
-adders that both pass the test exceed the maximum. -/
+/-- **Capacity under any concurrency** (the former finding C20-capacity-check-then-add-race, repaired in /repo: the capacity test
+and the addition it admits are one step under `Location.admission`). Any number of adders, each "take the admission lock and test;
+add unless full, release"; one step per scheduling decision; a thread that wants the lock while another holds it waits. After EVERY
+schedule the location holds at most `MaxFacts` (given that it started within it). -/
+theorem capacity_concurrent (maxFacts : Int) (count n : Nat) (h : (count : Int) ≤ maxFacts) (σ : List Nat) :
+    ((({ maxFacts := maxFacts, count := count, holder := none, pcs := List.replicate n .start } : CapLocked).exec σ).count : Int) ≤ maxFacts := by
+  have key := (CapLocked.inv_exec (s := { maxFacts := maxFacts, count := count, holder := none, pcs := List.replicate n .start }) ?_ σ).le
+  · rwa [CapLocked.exec_maxFacts] at key
+  refine ⟨h, ?_⟩
+  intro t b ht
+  simp only [List.getElem?_replicate] at ht
+  split at ht <;> cases ht
+
+/-- what the lock is for: with the test and the addition as separate, unlocked steps (the code before the repair) two adders
+that both pass the test exceed the maximum; with the lock the same schedule ends within it -/
 theorem capacity_race_witness :
-    (({ maxFacts := 1, count := 0, pcs := [.start, .start] } : CapRace).exec [0, 1, 0, 1]).count = 2 := by
+    (({ maxFacts := 1, count := 0, pcs := [.start, .start] } : CapRace).exec [0, 1, 0, 1]).count = 2 ∧
+    (({ maxFacts := 1, count := 0, holder := none, pcs := [.start, .start] } : CapLocked).exec [0, 1, 0, 1, 1, 1]).count = 1 := by
   decide
 
 /-! ## the hypotheses are satisfiable by non-trivial instances -/
